@@ -11,6 +11,18 @@ class Node(persistent.Persistent):
         self.refs = ()
 
 
+class SelfActNode(Node):
+    """a Node that does not stay a ghost: when it is invalidated it reloads its state at once (like a
+    persistent class, or ZODB's SelfActivatingObject test helper)"""
+
+    def _p_invalidate(self):
+        super()._p_invalidate()
+        try:
+            self._p_activate()
+        except Exception:
+            pass
+
+
 class Injected(Exception):
     """failure injected by the harness (second resource manager / storage fault)"""
 
